@@ -167,6 +167,7 @@ fn run_range(n: usize, lo: u64, hi: u64, pr: Present, timeout_ms: u64) -> Vec<(u
     out
 }
 
+static HUNG_RUNS: std::sync::atomic::AtomicUsize = std::sync::atomic::AtomicUsize::new(0);
 fn analyse(g: &Graph, merge: &str, pr: Present, timeout_ms: u64) -> Outcome {
     let (tx, rx) = mpsc::channel();
     let mut tries = 0;
@@ -185,11 +186,14 @@ fn analyse(g: &Graph, merge: &str, pr: Present, timeout_ms: u64) -> Outcome {
         if tries > 600 { eprintln!("cannot spawn worker thread"); std::process::exit(3); }
         std::thread::sleep(Duration::from_millis(100));
     }
-    match rx.recv_timeout(Duration::from_millis(timeout_ms)) {
+    // once three runs have hung (already a violation) the remaining ones get a short leash, so
+    // that a looping implementation cannot stretch the check to hours
+    let eff = if HUNG_RUNS.load(std::sync::atomic::Ordering::Relaxed) >= 3 { timeout_ms.min(3000) } else { timeout_ms };
+    match rx.recv_timeout(Duration::from_millis(eff)) {
         Ok(Some(Ok(t))) => Outcome::Decomposed(t),
         Ok(Some(Err(k))) => Outcome::Undecomposed(k),
         Ok(None) => Outcome::Panicked,
-        Err(_) => Outcome::Hung,
+        Err(_) => { HUNG_RUNS.fetch_add(1, std::sync::atomic::Ordering::Relaxed); Outcome::Hung }
     }
 }
 
@@ -222,9 +226,10 @@ impl Stats {
 }
 
 /// one case = one graph under the listed strategies (max of the per-strategy codes)
-fn emit(sink: &mut CaseSink, st: &mut Stats, fam: &str, g: &Graph, merges: &[&str], pr: Present, timeout_ms: u64) {
+fn emit(sink: &mut CaseSink, st: &mut Stats, fam: &str, g: &Graph, merges: &[&str], pr: Present, timeout_ms: u64) -> bool {
     let outs: Vec<Outcome> = merges.iter().map(|m| analyse(g, m, pr, timeout_ms)).collect();
     emit_with(sink, st, fam, g, merges, pr, &outs);
+    !outs.iter().any(|o| matches!(o, Outcome::Panicked | Outcome::Hung))
 }
 fn emit_with(sink: &mut CaseSink, st: &mut Stats, fam: &str, g: &Graph, merges: &[&str], pr: Present, outs: &[Outcome]) {
     let mut parts = vec![];
@@ -256,6 +261,13 @@ fn emit_exhaustive(sink: &mut CaseSink, st: &mut Stats, n: usize, pr: Present, w
     for chunk in results.iter() { for (bits, o) in chunk.iter() { emit_with(sink, st, &fam, &graph_of_bits(n, *bits), &MERGES, pr, o); } }
 }
 
+/// run `f` in its own thread; None if it panicked or did not finish within `timeout_ms`
+fn watched<R: Send + 'static>(timeout_ms: u64, f: impl FnOnce() -> R + Send + 'static) -> Option<R> {
+    let (tx, rx) = mpsc::channel();
+    let h = std::thread::Builder::new().stack_size(32 << 20).spawn(move || { let r = guarded(f); let _ = tx.send(r); });
+    if h.is_err() { return None; }
+    match rx.recv_timeout(Duration::from_millis(timeout_ms)) { Ok(Some(r)) => Some(r), _ => None }
+}
 /// model validation of reorder_snode_consecutively (information only)
 fn emit_reorder(sink: &mut CaseSink, st: &mut Stats, g: &Graph) {
     let n = g.n;
@@ -265,7 +277,8 @@ fn emit_reorder(sink: &mut CaseSink, st: &mut Stats, g: &Graph) {
     if mask.iter().all(|x| *x) { return; }
     let mut parts = vec![];
     for m in MERGES.iter() {
-        if let Some((a, b)) = guarded(|| vh::reorder_trace(&mask, m)) {
+        let (mk, mm) = (mask.clone(), m.to_string());
+        if let Some((a, b)) = watched(15000, move || vh::reorder_trace(&mk, &mm)) {
             if a.n_cliques < 2 { continue; }
             parts.push(format!("c17_reorder {} {} {} {} {} {} {}", cnn(&a.snode), cnn(&a.separators), cnlist(&a.snode_post), cnlist(&a.ordering), cnn(&b.snode), cnn(&b.separators), cnlist(&b.ordering)));
         }
@@ -275,6 +288,47 @@ fn emit_reorder(sink: &mut CaseSink, st: &mut Stats, g: &Graph) {
     let mut inp = g.json();
     inp["reorder"] = json!(true);
     sink.case("reorder", inp, format!("(maxl [{}])", parts.join("; ")), &["reorder"]);
+}
+
+/// model validation of the merge strategies (information only): decisions taken by the real
+/// strategy objects (hook merge_trace) against the Gallina models MergePC / MergeCG, and the
+/// no-merge pipeline (factor pattern, supernodes, separators, parents) against NoMerge
+fn emit_merge_models(sink: &mut CaseSink, st: &mut Stats, g: &Graph) {
+    let n = g.n;
+    let mut mask = vec![false; n * (n + 1) / 2];
+    for e in g.edges.iter() { mask[tri_idx(e.0, e.1)] = true; }
+    for i in 0..n { mask[tri_idx(i, i)] = true; }
+    if mask.iter().all(|x| *x) { return; }
+    let dec = |d: &[(usize, usize, bool)]| clist(d, |e| format!("({},{},{})", e.0, e.1, if e.2 { "true" } else { "false" }));
+    let nat = |v: &[usize]| clist(v, |x| format!("{}", x));
+    let nnat = |v: &[Vec<usize>]| clist(v, |l| clist(l, |x| format!("{}", x)));
+    let ppar = |v: &[usize]| clist(v, |p| if *p == vh::NO_PARENT_V { "PostOrder.Root".to_string() } else if *p == vh::INACTIVE_NODE_V { "PostOrder.Dead".to_string() } else { format!("PostOrder.Par {}", p) });
+    let mut parts = vec![];
+    let mk = mask.clone();
+    if let Some(t) = watched(15000, move || vh::merge_trace(&mk, "parent_child")) {
+        if t.before.n_cliques >= 2 {
+            parts.push(format!("c17_merge_pc {} {} {} {} {} {} {} {}", nnat(&t.before.snode), nnat(&t.before.separators), ppar(&t.before.parent), nat(&t.before.snode_post),
+                               dec(&t.decisions), nnat(&t.loop_end_snode), ppar(&t.after.parent), nat(&t.after.snode_post)));
+        }
+    }
+    let mk = mask.clone();
+    if let Some(t) = watched(15000, move || vh::merge_trace(&mk, "clique_graph")) {
+        if t.before.n_cliques >= 2 {
+            parts.push(format!("c17_merge_cg {} {} {} {}", nnat(&t.before_snode_raw), nnat(&t.before_sep_raw), dec(&t.decisions), nnat(&t.loop_end_snode)));
+        }
+    }
+    let (mk, mk2) = (mask.clone(), mask.clone());
+    if let Some((cols, _)) = watched(15000, move || vh::factor_columns(&mk)) {
+        if let Some(t) = watched(15000, move || vh::merge_trace(&mk2, "none")) {
+            let par: Vec<String> = t.before.parent.iter().map(|p| if *p == vh::NO_PARENT_V { "None".to_string() } else { format!("Some {}", p) }).collect();
+            parts.push(format!("c17_nomerge {} {} {} [{}]", nnat(&cols), nnat(&t.before.snode), nnat(&t.before.separators), par.join(";")));
+        }
+    }
+    if parts.is_empty() { return; }
+    st.bump("merge_model_cases");
+    let mut inp = g.json();
+    inp["merge_models"] = json!(true);
+    sink.case("merge_models", inp, format!("(maxl [{}]%nat)", parts.join("; ")), &["merge_models"]);
 }
 
 // ------------------------------------------------------------------ generators
@@ -348,6 +402,26 @@ fn disconnected(rng: &mut Rng, parts: &[Graph], isolated: usize) -> Graph {
     Graph::new(off + isolated, e).permuted(rng)
 }
 
+/// many overlapping cliques of unequal overlap on 10..40 vertices (window cliques over a band or
+/// arrow skeleton plus a few long-range edges): after fill-in the clique graph has many edges
+/// whose maximum-weight one is often not permissible, which drives `traverse` into its scan of
+/// the remaining edges (through `index_to_coord`), also after clique 0 has been merged away
+fn overlap_family(rng: &mut Rng, n: usize) -> Graph {
+    let mut e = match rng.below(3) { 0 => banded(n, 1).edges, 1 => arrow(n, 1, 1).edges, _ => cycle(n).edges };
+    let ncl = n / 2 + rng.below(n);
+    for _ in 0..ncl {
+        let sz = 2 + rng.below(4);
+        let w = (sz + rng.below(5)).min(n);
+        let start = rng.below(n - w + 1);
+        let mut vs: Vec<usize> = (start..start + w).collect();
+        rng.shuffle(&mut vs);
+        vs.truncate(sz);
+        for a in 0..vs.len() { for b in a + 1..vs.len() { e.push((vs[a], vs[b])); } }
+    }
+    for _ in 0..rng.below(4) { e.push((rng.below(n), rng.below(n))); }
+    let g = Graph::new(n, e);
+    if rng.chance(1, 2) { g.permuted(rng) } else { g }
+}
 fn random_family(rng: &mut Rng, k: usize, big: bool) -> (String, Graph) {
     let nmax = if big { 300 } else { 48 };
     let n = 4 + rng.below(nmax - 3);
@@ -364,6 +438,32 @@ fn random_family(rng: &mut Rng, k: usize, big: bool) -> (String, Graph) {
         9 => ("cycle".into(), cycle(n).permuted(rng)),
         10 => { let r = 2 + rng.below(if big { 12 } else { 5 }); let c = 2 + rng.below(if big { 12 } else { 6 }); ("grid".into(), grid(r, c)) }
         _ => ("banded_permuted".into(), banded(n, 1 + rng.below(4)).permuted(rng)),
+    }
+}
+
+/// `CscMatrix::index_to_coord` against the CSC model (Csc/Model.v): every stored index of random
+/// sparse patterns, always including matrices whose leading columns are empty
+fn idx2coord_cases(sink: &mut CaseSink, st: &mut Stats, rng: &mut Rng, count: usize) {
+    for k in 0..count {
+        let (m, n) = (1 + rng.below(5), 1 + rng.below(6));
+        let lead = if k % 2 == 0 { 1 + rng.below(n) } else { 0 }; // columns 0..lead are empty
+        let mut colptr = vec![0usize];
+        let mut rowval = vec![];
+        for j in 0..n {
+            if j >= lead.min(n - 1) || lead == 0 { for i in 0..m { if rng.chance(1, 2) { rowval.push(i); } } }
+            colptr.push(rowval.len());
+        }
+        if rowval.is_empty() { rowval.push(m - 1); *colptr.last_mut().unwrap() = 1; }
+        let nnz = rowval.len();
+        let a = CscMatrix::new(m, n, colptr.clone(), rowval.clone(), vec![1.0f64; nnz]);
+        let mut parts = vec![];
+        for idx in 0..=nnz {
+            let o = guarded(|| a.index_to_coord(idx));
+            let os = match o { Some((r, c)) => format!("(Some ({}%N,{}%N))", r, c), None => "None".to_string() };
+            parts.push(format!("c17_idx2coord {} {} {} {} {} {}", cn(m), cn(n), cnlist(&colptr), cnlist(&rowval), cn(idx), os));
+        }
+        st.bump("idx2coord");
+        sink.case("idx2coord", json!({"m": m, "n": n, "colptr": colptr, "rowval": rowval}), format!("(maxl [{}])", parts.join("; ")), &["idx2coord"]);
     }
 }
 
@@ -489,6 +589,7 @@ fn main() {
     let mut tier = String::from("quick");
     let mut replay: Option<String> = None;
     let mut search: usize = 0;
+    let mut search_fb: usize = 0;
     let mut exn: Option<(usize, u64, u64)> = None;
     let mut i = 1;
     while i < args.len() {
@@ -498,6 +599,7 @@ fn main() {
             "--tier" => { tier = args[i + 1].clone(); i += 1; }
             "--replay" => { replay = Some(args[i + 1].clone()); i += 1; }
             "--search" => { search = args[i + 1].parse().unwrap_or(0); i += 1; }
+            "--search-fallback" => { search_fb = args[i + 1].parse().unwrap_or(0); i += 1; }
             "--exn" => { exn = Some((args[i + 1].parse().unwrap(), args[i + 2].parse().unwrap(), args[i + 3].parse().unwrap())); i += 3; }
             _ => {}
         }
@@ -511,6 +613,27 @@ fn main() {
     let mut rng = Rng::new(seed);
     let std_pr = Present { diag: true, in_b: false };
 
+    if search_fb > 0 {
+        // exploration only: graphs on which the clique-graph strategy scans the remaining edges
+        // after clique 0 has been merged away (kept as corpus when interesting)
+        let mut found = 0;
+        let _ = vh::take_traverse_fallback_counts();
+        for k in 0..search_fb {
+            let g = match k % 4 { 0 => { let n = 10 + rng.below(31); overlap_family(&mut rng, n) }, 1 => { let (n, d) = (8 + rng.below(33), 2 + rng.below(8)); erdos(&mut rng, n, 1, d) }, 2 => { let n = 10 + rng.below(20); overlap_family(&mut rng, n) }, _ => random_family(&mut rng, k, false).1 };
+            let o = analyse(&g, "clique_graph", std_pr, 20000);
+            let (fb, fb0) = vh::take_traverse_fallback_counts();
+            let bad = matches!(o, Outcome::Panicked | Outcome::Hung);
+            if fb0 > 0 || bad {
+                found += 1;
+                let mut inp = g.json();
+                inp["merges"] = json!(["clique_graph"]); inp["diag"] = json!(true); inp["in_b"] = json!(false);
+                sink.record(json!({"search_hit": inp, "outcome": outcome_tag(&o), "fallback": fb, "fallback_c0_dead": fb0}));
+            }
+        }
+        sink.record(json!({"search": {"tried": search_fb, "found": found}}));
+        sink.flush();
+        return;
+    }
     if search > 0 {
         // exploration only: clique-graph strategy on many-clique chordal patterns
         let mut found = 0;
@@ -550,6 +673,7 @@ fn main() {
                 continue;
             }
             if inp.get("edges").is_none() { continue; }
+            if inp.get("merge_models").and_then(|b| b.as_bool()).unwrap_or(false) { emit_merge_models(&mut sink, &mut st, &Graph::from_json(inp)); continue; }
             if inp.get("reorder").and_then(|b| b.as_bool()).unwrap_or(false) { emit_reorder(&mut sink, &mut st, &Graph::from_json(inp)); continue; }
             let g = Graph::from_json(inp);
             let merges: Vec<String> = inp.get("merges").and_then(|m| m.as_array()).map(|a| a.iter().map(|x| x.as_str().unwrap().to_string()).collect()).unwrap_or_else(|| MERGES.iter().map(|s| s.to_string()).collect());
@@ -559,7 +683,9 @@ fn main() {
         }
     } else {
         // 1. exhaustive: every labelled graph on n vertices
-        for n in 1..=6 { emit_exhaustive(&mut sink, &mut st, n, std_pr, 8); }
+        // 6 and 7 vertices go through the extracted checker (vp/c17.py, `--exn`)
+        for n in 1..=5 { emit_exhaustive(&mut sink, &mut st, n, std_pr, 8); }
+        { let mut cnt = 0usize; for n in 4..=5 { all_graphs(n, &mut |g| { cnt += 1; if thorough || n == 4 || cnt % 4 == 0 { emit_merge_models(&mut sink, &mut st, &g); } }); } }
         // 2. presentation variants on small graphs: diagonal absent from the data, entries split between A and b
         for k in 0..(if thorough { 600 } else { 150 }) {
             let (nn, dd) = (3 + rng.below(6), 2 + rng.below(3)); let g = erdos(&mut rng, nn, 1, dd);
@@ -569,15 +695,22 @@ fn main() {
         let nrand = if thorough { 2400 } else { 480 };
         for k in 0..nrand {
             let big = (k / 12) % 16 == 15;
-            let (fam, g) = random_family(&mut rng, k, big);
-            emit(&mut sink, &mut st, &fam, &g, &MERGES, std_pr, 15000);
-            if g.n <= 60 { emit_reorder(&mut sink, &mut st, &g); }
+            let (fam, g) = if k % 24 == 9 && !big { let n = 10 + rng.below(31); ("overlap".to_string(), overlap_family(&mut rng, n)) } else { random_family(&mut rng, k, big) };
+            // the model ties are skipped for a pattern on which the analysis itself crashed or hung
+            let normal = emit(&mut sink, &mut st, &fam, &g, &MERGES, std_pr, 15000);
+            if normal && g.n <= 60 { emit_reorder(&mut sink, &mut st, &g); }
+            if normal && (g.n <= 32 || (thorough && g.n <= 48)) { emit_merge_models(&mut sink, &mut st, &g); }
         }
         // 4. DisjointSetUnion
         dsu_cases(&mut sink, &mut st, &mut rng, if thorough { 400 } else { 120 });
+        // 5. index_to_coord (fallback scan of the clique-graph strategy)
+        idx2coord_cases(&mut sink, &mut st, &mut rng, if thorough { 300 } else { 80 });
     }
     let mut by = serde_json::Map::new();
     for (k, v) in st.by.iter() { by.insert(k.clone(), json!(v)); }
+    let (fb, fb0) = vh::take_traverse_fallback_counts();
+    by.insert("traverse_fallback_scans".into(), json!(fb));
+    by.insert("traverse_fallback_scans_clique0_merged".into(), json!(fb0));
     by.insert("max_cliques".into(), json!(st.max_cliques));
     by.insert("max_vertices".into(), json!(st.max_n));
     sink.record(json!({"stats": by}));
